@@ -59,9 +59,18 @@ func VerifC11Sinks() {
 		// the declaration scope already holds names the invocation scope defines itself: an invocation still sees its own event
 		src += "event := {\"name\": \"g\", \"kind\": \"g\", \"state\": {\"id\": \"glob\", \"fail\": false}}\n"
 	}
-	src += c11Src("s1", "a")
+	ka, kb := "a", "b"
+	if w := zz.Param("WILD", 0); w > 0 {
+		// rule index layout: up to w-1 sinks on the wildcard pattern x.* next to the sinks on the specific kinds x.a / x.b
+		ka, kb = "x.a", "x.b"
+		nw := zz.Choice("wildcardSinks", w)
+		for i := 0; i < nw; i++ {
+			src += "sink w" + []string{"0", "1", "2", "3"}[i] + "\n  kindmatch [ \"x.*\" ],\n  {\n    mark(event.state.id, event.state.id)\n  }\n"
+		}
+	}
+	src += c11Src("s1", ka)
 	if two {
-		src += c11Src("s2", "b")
+		src += c11Src("s2", kb)
 	}
 	_, err := zzRun(erp, src, vs)
 	zz.Assert(err == nil, "C11.setup")
@@ -81,12 +90,16 @@ func VerifC11Sinks() {
 	}
 	proc.Start()
 	for i := 0; i < n; i++ {
-		kind := "a"
+		kind := ka
 		if two && i%2 == 1 {
-			kind = "b"
+			kind = kb
 		}
 		mons[i] = proc.NewRootMonitor(nil, nil)
-		proc.AddEvent(engine.NewEvent("e"+ids[i], []string{kind}, map[interface{}]interface{}{"fail": fails[i], "id": ids[i]}), mons[i])
+		segs := []string{kind}
+		if len(kind) == 3 { // "x.a": two segments
+			segs = []string{kind[:1], kind[2:]}
+		}
+		proc.AddEvent(engine.NewEvent("e"+ids[i], segs, map[interface{}]interface{}{"fail": fails[i], "id": ids[i]}), mons[i])
 	}
 	zz.Quiesce()
 	zz.Reach("quiescent")
